@@ -24,6 +24,21 @@ for p in sorted(glob.glob(ROOT+'/seeded/*/meta.json')):
     m=json.load(open(p))
     seed=os.path.basename(os.path.dirname(p))
     out.append("| %s | %s | %s | %s | %s |"%(seed,m['property'],m.get('needs_to_manifest',m.get('needs','')),m.get('result','caught'),m.get('outcome',m.get('result',''))))
+out.append("\n### 9.4 As built: per-property summary (generated from checks/*.json and the last evidence files)\n")
+out.append("| id | engine(s) | translators | theorems+corr obligations | level (first sentence of level_text) |\n|---|---|---|---|---|")
+for pth in sorted(glob.glob(ROOT+'/checks/C[0-9][0-9].json')):
+    c=json.load(open(pth)); pid=c['id']
+    engs=[e['name'] for e in ([c['engine']] if c.get('engine') else [])+c.get('extra_engines',[])]
+    trs=[t['pkg'].split('/')[-1] for t in c.get('translators',[])]
+    ob=''
+    ev=ROOT+'/evidence/%s.json'%pid
+    if os.path.exists(ev):
+        try:
+            e=json.load(open(ev)); ob="%d/%d"%(e['coverage'].get('discharged',0),e['coverage'].get('obligations',0))
+        except Exception: pass
+    lt=c.get('level_text','').strip().replace('|','/')
+    first=re.split(r'(?<=[.;:])\s', lt)[0][:160]
+    out.append("| %s | %s | %s | %s | %s |"%(pid,", ".join(engs),", ".join(trs) or "-",ob,first))
 txt="\n".join(out)+"\n"
 d=open(ROOT+'/DESIGN.md').read()
 a="<!-- TABLES-BEGIN -->"; b="<!-- TABLES-END -->"
